@@ -223,3 +223,58 @@ def ob_fixedpoint(tier):
     return [Case("fixed point boundary menu", [w >= 0, w < 7, f >= 0, f < 3],
                  lambda: check_fixedpoint(cur().choose(w, range(7)), cur().choose(f, range(3))) is None,
                  dict(which=w, factor_i=f), lambda wd: _rep(check_fixedpoint, wd["which"], wd["factor_i"]), known=known)]
+
+
+# ------------------------------------------------------------------------------------ integer casts
+INT_TYPES = ["int8", "uint8", "int16", "uint16", "int32", "uint32"]
+
+
+def check_safe_cast(si, di, vi):
+    """encoding._safe_cast and the encodings that rely on it: a value outside the target type is refused, never wrapped"""
+    from biotite.structure.io.pdbx import encoding as enc
+    from biotite.structure.io.pdbx.encoding import ByteArrayEncoding, RunLengthEncoding, DeltaEncoding, TypeCode
+    src, dst = np.dtype(INT_TYPES[si]), np.dtype(INT_TYPES[di])
+    sinfo, dinfo = np.iinfo(src), np.iinfo(dst)
+    menu = sorted({sinfo.min, sinfo.max, 0, 1, -1 if sinfo.min < 0 else 2, max(sinfo.min, min(sinfo.max, dinfo.max)), max(sinfo.min, min(sinfo.max, dinfo.max + 1)),
+                   max(sinfo.min, min(sinfo.max, dinfo.min)), max(sinfo.min, min(sinfo.max, dinfo.min - 1))})
+    v = menu[vi % len(menu)]
+    arr = np.array([1, v, 0], dtype=src)
+    fits = dinfo.min <= v <= dinfo.max
+    try:
+        got = enc._safe_cast(arr, dst)
+        if not fits:
+            return f"_safe_cast({arr.tolist()} {src} -> {dst}) = {got.tolist()}: a value outside the target range was accepted"
+        if got.dtype != dst or got.tolist() != arr.tolist():
+            return f"_safe_cast({arr.tolist()} {src} -> {dst}) = {got.tolist()} ({got.dtype})"
+    except ValueError:
+        if fits:
+            return f"_safe_cast({arr.tolist()} {src} -> {dst}) refused although every value fits"
+    # through the public encodings with an explicit target type
+    code = getattr(TypeCode, INT_TYPES[di].upper())
+    e = ByteArrayEncoding(type=code)
+    try:
+        back = e.decode(e.encode(arr))
+    except (ValueError, OverflowError):
+        return None if not fits else f"ByteArrayEncoding(type={dst}) refused {arr.tolist()} although every value fits"
+    if not fits:
+        return f"ByteArrayEncoding(type={dst}) accepted {arr.tolist()} ({src}) and returned {back.tolist()} ({back.dtype})"
+    if back.tolist() != arr.tolist():
+        return f"ByteArrayEncoding(type={dst}): {arr.tolist()} came back as {back.tolist()}"
+    return None
+
+
+def ob_safe_cast(tier):
+    s, d, v = z3.Ints("s d v")
+
+    def run():
+        ex = cur()
+        return check_safe_cast(ex.choose(s, range(6)), ex.choose(d, range(6)), ex.choose(v, range(9))) is None
+
+    def rep(w):
+        try:
+            r = check_safe_cast(w["si"], w["di"], w["vi"])
+            return r is None, str(r)
+        except Exception as e:
+            import traceback
+            return False, f"{type(e).__name__}: {e} | {traceback.format_exc()[-300:]}"
+    return [Case("integer casts of the encodings", [s >= 0, s < 6, d >= 0, d < 6, v >= 0, v < 9], run, dict(si=s, di=d, vi=v), rep)]
